@@ -3,7 +3,12 @@
 import json, os
 HERE = os.path.dirname(os.path.dirname(os.path.abspath(__file__)))
 B = []
-def cfg(nidl=False, base=True, sw=False, regw=False): return dict(nidl=nidl, base=base, sw=sw, regw=regw, certKeys=["k1", "k2", "k3"])
+def cfg(nidl=False, base=True, sw=False, regw=False, unix=False, life=0): return dict(nidl=nidl, base=base, sw=sw, regw=regw, unix=unix, lifeSec=life, certKeys=["k1", "k2", "k3"])
+def NN(k): return dict(op="NewNode", k=k)
+def AP(k): return dict(op="AuthorizePending", k=k)
+def RG(k, kind, ex="none"): return dict(op="Rogue", k=k, kind=kind, ex=ex)
+RW = dict(op="RotateWait")
+ROGUES = ["foreign", "staleNonce", "noNonce", "wrongEku", "selfSigned", "foreignNoAlpn", "foreignExtraAlpn", "nextRootNotYetValid"]
 def E(k): return dict(op="Enroll", k=k)
 def R(k): return dict(op="Remove", k=k)
 RE = dict(op="Reinit")
@@ -34,6 +39,13 @@ beh("f14_classes_fetch", ["C14"], cfg(sw=True), [E("k1")] + [M(c, "fetch") for c
                                                                                        "dropAfterHello", "dropMidHello"]] + [D("k1"), M("empty", "pref"), M("short1", "pref"), M("b64rand", "pref"), D("k1")])
 # open known finding KF-C14-1: application AEAD registration wrapper + short wrapped ciphertext
 beh("kf_c14_wrappedshort", ["C14"], cfg(regw=True), [E("k1"), M("wrappedShort", "fetch"), D("k1"), M("b64rand", "fetch"), D("k1")])
+for unix in (False, True):
+    x = "u" if unix else ""
+    beh("f07_unreg" + x, ["C07"], cfg(unix=unix, sw=unix), [NN("k1"), D("k1"), D("k1", "one", "nested"), AP("k1"), D("k1", "one", "nested"), D("k1"), NN("k2"), D("k2"), E("k3"), D("k3", "many")])
+    beh("f07_rogues" + x, ["C07"], cfg(unix=unix), [E("k1")] + [RG("k1", k, ex) for k in ROGUES for ex in ("none", "many")] + [D("k1", "many", "large")])
+# real time: the server rotates once the node's second chain is valid; the node must still connect (through its second chain)
+for i in range(3):
+    beh("f07_rotate%d" % i, ["C07", "C09"], cfg(life=8, sw=(i == 1)), [E("k1"), D("k1"), RW] + [D("k1", ex, st) for ex, st in [("none", "none"), ("one", "nested"), ("many", "none")] * 6] + [RG("k1", "foreign"), RG("k1", "staleNonce")])
 with open(os.path.join(HERE, "fixed", "hs.ndjson"), "w") as f:
     for b in B:
         f.write(json.dumps(b, separators=(",", ":")) + "\n")
